@@ -212,6 +212,98 @@ pub fn run(tier: Tier, seed: u64) -> i32 {
         });
     });
 
+    // combined (unsplit) objects, with a clone taken mid-stream that must continue exactly where the original is
+    let comb_cases = AtomicU64::new(0);
+    keys.par_iter().take(tier.pick(8, 64)).for_each(|key| {
+        let mut cc = ciphers::wrath_client(key);
+        let mut sc = ciphers::wrath_server(key);
+        let mut r_c2s = wrath_stream(key, Dir::ClientToServer);
+        let mut r_s2c = wrath_stream(key, Dir::ServerToClient);
+        let total = tier.pick(70_000usize, 300_000usize);
+        let mut off = 0usize;
+        let mut step = 0usize;
+        while off < total {
+            let l = [1usize, 6, 4, 5, 255, 1024, 3, 4096][step % 8].min(total - off);
+            step += 1;
+            if step % 5 == 0 {
+                // continue on clones, drop the originals
+                cc = cc.clone();
+                sc = sc.clone();
+            }
+            let plain: Vec<u8> = (0..l).map(|i| ((off + i) as u8).wrapping_mul(7)).collect();
+            let mut a = plain.clone();
+            cc.encrypt(&mut a);
+            let mut want = plain.clone();
+            r_c2s.apply(&mut want);
+            let mut b = a.clone();
+            sc.decrypt(&mut b);
+            let mut c = plain.clone();
+            sc.encrypt(&mut c);
+            let mut want2 = plain.clone();
+            r_s2c.apply(&mut want2);
+            let mut d = c.clone();
+            cc.decrypt(&mut d);
+            if a != want || b != plain || c != want2 || d != plain {
+                viol(&report, "combined-objects", "keystream", key, json!({"offset": off, "len": l, "after_clone_steps": step / 5}), "combined ClientCrypto/ServerCrypto (with clones taken mid-stream) disagree with the reference keystream or do not round-trip".into());
+                return;
+            }
+            off += l;
+        }
+        comb_cases.fetch_add(4 * total as u64, Ordering::Relaxed);
+    });
+    states.fetch_add(comb_cases.load(Ordering::Relaxed), Ordering::Relaxed);
+    trans.fetch_add(comb_cases.load(Ordering::Relaxed), Ordering::Relaxed);
+    report.count("combined_object_stream_bytes", comb_cases.load(Ordering::Relaxed));
+
+    // thorough: one connection far beyond 2^32 bytes per direction (any 8/16/24/32-bit byte counter would have wrapped)
+    if tier == Tier::Thorough {
+        let key = &keys[3];
+        let dirs: Vec<u8> = vec![0, 1];
+        dirs.par_iter().for_each(|&dir| {
+            let total: u64 = (1u64 << 32) + (1 << 20);
+            let block = 1usize << 20;
+            let zeros = vec![0u8; block];
+            let mut done = 0u64;
+            if dir == 0 {
+                let (mut ce, _) = ciphers::wrath_client(key).split();
+                let (_, mut sd) = ciphers::wrath_server(key).split();
+                let mut r = wrath_stream(key, Dir::ClientToServer);
+                while done < total {
+                    let mut a = zeros.clone();
+                    ce.encrypt(&mut a);
+                    let mut w = zeros.clone();
+                    r.apply(&mut w);
+                    let mut b = a.clone();
+                    sd.decrypt(&mut b);
+                    if a != w || b != zeros {
+                        viol(&report, "very-long-stream", "keystream", key, json!({"direction": "client->server", "block_start": done}), "keystream or round trip wrong beyond the explored depth".into());
+                        return;
+                    }
+                    done += block as u64;
+                }
+            } else {
+                let (mut se, _) = ciphers::wrath_server(key).split();
+                let (_, mut cd) = ciphers::wrath_client(key).split();
+                let mut r = wrath_stream(key, Dir::ServerToClient);
+                while done < total {
+                    let mut a = zeros.clone();
+                    se.encrypt(&mut a);
+                    let mut w = zeros.clone();
+                    r.apply(&mut w);
+                    let mut b = a.clone();
+                    cd.decrypt(&mut b);
+                    if a != w || b != zeros {
+                        viol(&report, "very-long-stream", "keystream", key, json!({"direction": "server->client", "block_start": done}), "keystream or round trip wrong beyond the explored depth".into());
+                        return;
+                    }
+                    done += block as u64;
+                }
+            }
+            states.fetch_add(2 * total, Ordering::Relaxed);
+            trans.fetch_add(2 * total, Ordering::Relaxed);
+        });
+        report.set("very_long_stream_bytes_per_direction", json!((1u64 << 32) + (1 << 20)));
+    }
     let st = states.load(Ordering::Relaxed);
     let tr = trans.load(Ordering::Relaxed);
     report.count("states", st);
@@ -222,7 +314,7 @@ pub fn run(tier: Tier, seed: u64) -> i32 {
     report.set("distinct_nontrivial", json!(st));
     report.set("rule", json!("per key and half: the single keystream path offset 0..depth is walked on the real object with varying call sizes and compared byte for byte with the reference RC4-drop1024 (HMAC-SHA1 keyed); a state is (half, stream offset); distinct_nontrivial = distinct (key, half, offset) states visited"));
     report.set("exhaustive", json!(false));
-    report.set("max_depth_bytes", json!(depth_deep));
+    report.set("max_depth_bytes", json!(if tier == Tier::Thorough { (1u64 << 32) + (1 << 20) } else { depth_deep as u64 }));
     report.cap_hit(&format!("stream depth bounded: {} bytes for {} keys, {} bytes for the rest (RC4 state space 256!*2^16 cannot be closed)", depth_deep, n_deep, depth_shallow));
     for (i, name) in ["swapped-direction-constants", "drop-1000", "no-hmac"].iter().enumerate() {
         let d = spec_mut[i].load(Ordering::Relaxed);
